@@ -9,6 +9,10 @@ three repairs
                `pickle.dumps(cstate)`, and the pool kept `_last_pickled_state`
                when `worker.call` raised.
 
+  (D) 3499a3b  `worker_proc.worker` (and `MultiSchemaPool.handle_client_call`) answered a
+               request they could not unpickle with that ordinary exception, and
+               `BaseWorker.call` acknowledged a sync that never happened.
+
 NOT the code that exists.  Kept only so that Props/C17.lean can document, on
 concrete histories, what each repair changed (`…_repaired` theorems); the
 harness has the same histories as regression witnesses on the real code.
@@ -16,6 +20,7 @@ Types, `preargs`, `txSend`, `wtxPrepare` are shared with Model/Sync.lean.
 Core Lean only.
 -/
 import EdbVerif.Model.Sync
+import EdbVerif.Model.SyncMT
 
 namespace EdbVerif.Sync.Buggy
 open EdbVerif.Sync
@@ -149,5 +154,20 @@ def trace (env : Env) (st : State) : List Req → List Obs
   | [] => []
   | q :: qs => (step env st q).2 :: trace env (step env st q).1 qs
 
+
+/-- before 3499a3b: status 1 with an ordinary exception ⇒ the callback runs -/
+def stepCompileLost (st : State) (r : CReq) : State × CObs :=
+  let ws := st r.w
+  let p := preargs ws.bel r
+  match EdbVerif.Sync.withAck ws.bel r.db p with
+  | none => (upd st r.w ⟨ws.bel.forget, ws.act⟩, ⟨p, !p.isEmpty, .cbAssert, none⟩)
+  | some b' => (upd st r.w ⟨b'.forget, ws.act⟩, ⟨p, !p.isEmpty, .unpickleErr, none⟩)
+
+/-- before 3499a3b, remote path: nothing stored on the compiler server, the client acknowledges -/
+def stepMTLost (st : EdbVerif.SyncMT.MTState) (q : EdbVerif.SyncMT.MReq) :
+    EdbVerif.SyncMT.MTState × EdbVerif.SyncMT.MObs :=
+  let p := preargs (st.bel q.c) q.r
+  (EdbVerif.SyncMT.ack1 { st with clock := st.clock + 1 } q.c q.r.db p true,
+   ⟨p, !p.isEmpty, false, none, none, [], .unpickleErr, none⟩)
 
 end EdbVerif.Sync.Buggy
